@@ -26,11 +26,11 @@ extern "C" {
 void verif_vec_u32_clone(const void *src, void *out);
 void verif_vec_u32_push(void *v, uint32_t x);
 void verif_vec_u32_from(const uint32_t *vals, size_t n, void *out);
-size_t verif_vec_u32_consume(void *raw, size_t k);
+uint64_t verif_vec_u32_consume(void *raw, size_t k);
 void verif_vec_str_clone(const void *src, void *out);
 void verif_vec_str_push(void *v, uint32_t x);
 void verif_vec_str_from(const uint32_t *vals, size_t n, void *out);
-size_t verif_vec_str_consume(void *raw, size_t k);
+uint64_t verif_vec_str_consume(void *raw, size_t k);
 }
 
 template <typename T>
@@ -42,7 +42,7 @@ struct Ops<uint32_t> {
     static void clone(const void *s, void *o) { verif_vec_u32_clone(s, o); }
     static void push(void *v, uint32_t x) { verif_vec_u32_push(v, x); }
     static void from(const uint32_t *d, size_t n, void *o) { verif_vec_u32_from(d, n, o); }
-    static size_t consume(void *raw, size_t k) { return verif_vec_u32_consume(raw, k); }
+    static uint64_t consume(void *raw, size_t k) { return verif_vec_u32_consume(raw, k); }
 };
 template <>
 struct Ops<resolvo::String> {
@@ -54,7 +54,7 @@ struct Ops<resolvo::String> {
     static void clone(const void *s, void *o) { verif_vec_str_clone(s, o); }
     static void push(void *v, uint32_t x) { verif_vec_str_push(v, x); }
     static void from(const uint32_t *d, size_t n, void *o) { verif_vec_str_from(d, n, o); }
-    static size_t consume(void *raw, size_t k) { return verif_vec_str_consume(raw, k); }
+    static uint64_t consume(void *raw, size_t k) { return verif_vec_str_consume(raw, k); }
 };
 
 // the shared header: {refcount, size, capacity}
@@ -123,7 +123,14 @@ static int run(const char *path) {
                 std::memcpy(&raw, &*slot[x], sizeof raw);
                 new (&*slot[x]) Vector<T>();  // now owns the static empty vector
                 slot[x].reset();
-                Ops<T>::consume(raw, y);
+                // d[0] = the digest of the first y elements the model says Rust must read
+                uint64_t got = Ops<T>::consume(raw, y);
+                if (!d.empty() && got != d[0]) {
+                    ++mismatches;
+                    if (mismatches <= 5)
+                        std::cout << "MISMATCH script " << scripts << " step " << step << ": Rust read digest " << got
+                                  << " expected " << d[0] << "\n";
+                }
             } else {
                 std::cerr << "unknown op " << op << "\n";
                 return 2;
